@@ -40,6 +40,9 @@ CHECKS = {
  "C03": ("zcheck", "exhaustive enumeration of serializer inputs (complete sweeps of all Unicode scalars / small ints / structured wide sets / f32 bit patterns, DFS over all bounded value trees that drive every Serializer method, every output-buffer length) compared with serde_json",
          "The real json_ser::to_slice (hook re-export) and the public send path are run on every enumerated value; equality with serde_json::to_vec driven by the same Serialize impl; refusal rules for map-key kinds; BufferTooSmall exactly below the encoding's length; every initial fill level of the send buffer.",
          "Trusted: serde_json as reference. Unbounded domains (f64, 128-bit ints, strings) are covered by complete structured subsets; the seeded supplement on top is sampling and labelled so in the evidence.", "4 C03"),
+ "C04": ("zcheck", "complete enumeration of a finite product (reply frames x continues x member orders x expected parameter types x error types x receive path), each case one execution of the real receive_reply / call_method",
+         "373 reply frames (all shapes the statement names, incl. error replies whose parameters fit the expected success type) x 5 parameter types x 3 error types x 2 paths; the oracle classifies the frame from its JSON text alone.",
+         "Trusted: serde_json for `this frame decodes as that type`. The proxy path is covered by C12's corpus.", "4 C04"),
 }
 
 NOT_YET = {
